@@ -117,7 +117,56 @@ def f_itemset(x):
     y = np.broadcast_to(x, (2, 3))
     y[0, 0] = 1
 
+def f_mask_no_unshare(p):
+    a = np.ma.array(p, ndmin=1, dtype=np.double)
+    a.mask = np.isnan(a)
+def f_data_after_unshare(p):
+    a = np.ma.array(p, ndmin=1, dtype=np.double)
+    a.unshare_mask()
+    a[0] = 1.0
+def f_aug_after_unshare(p):
+    a = np.ma.array(p)
+    a.unshare_mask()
+    a += 1.0
+def f_unshare_other_alias(p):
+    a = np.ma.array(p)
+    b = np.ma.array(p)
+    a.unshare_mask()
+    b.mask = np.isnan(b)
+def f_unshare_same_object(p):
+    a = np.ma.asanyarray(p)
+    a.unshare_mask()
+    a.mask = True
+def f_unshare_param_itself(p):
+    p.unshare_mask()
+    p.mask = True
+def f_unshare_then_rebind(p):
+    a = np.ma.array(p)
+    a.unshare_mask()
+    a = np.ma.array(p)
+    a.mask = True
+def f_maskbuf_no_unshare(p):
+    a = np.ma.array(p)
+    a.mask[0] = True
+def f_getmask_write(p):
+    m = np.ma.getmaskarray(np.ma.array(p))
+    m[...] = True
+
 # ---------------- must HOLD (g_*)
+def g_mask_after_unshare(p):
+    a = np.ma.array(p, ndmin=1, dtype=np.double)
+    a.unshare_mask()
+    a.mask = np.logical_or(a.mask, np.isnan(a))
+def g_mask_after_unshare_view(p):
+    a = np.ma.array(p)[1:]
+    a.unshare_mask()
+    a.mask = True
+    b = a.reshape(-1)
+    b.mask = False
+def g_maskbuf_after_unshare(p):
+    a = np.ma.array(p)
+    a.unshare_mask()
+    a.mask[0] = True
 def g_copy(x):
     y = np.asarray(x).copy()
     y += 1
